@@ -2,20 +2,23 @@ package msg
 
 import (
 	"fmt"
+	"sync"
 
 	"verifharness/pinned"
 	"verifharness/refttlv"
 )
 
 var tagNames map[uint32]string
+var tagNamesOnce sync.Once
 
 func TagName(t uint32) string {
-	if tagNames == nil {
-		tagNames = map[uint32]string{}
+	tagNamesOnce.Do(func() {
+		m := map[uint32]string{}
 		for n, v := range pinned.Reg().Tags {
-			tagNames[uint32(v)] = n
+			m[uint32(v)] = n
 		}
-	}
+		tagNames = m
+	})
 	if n, ok := tagNames[t]; ok {
 		return n
 	}
